@@ -171,6 +171,11 @@ func (c *Client) VerifyParametersAt(ctx context.Context, height int64) (*cmttype
 		pf.RecordBadPeer()
 		return nil, fmt.Errorf("malformed parameters: %w", err)
 	}
+	if proto.Block == nil || proto.Evidence == nil || proto.Validator == nil || proto.Version == nil {
+		// The conversion below dereferences all sub-messages.
+		pf.RecordBadPeer()
+		return nil, fmt.Errorf("malformed parameters: missing fields")
+	}
 	cmtparams := cmttypes.ConsensusParamsFromProto(proto)
 	if err = cmtparams.ValidateBasic(); err != nil {
 		pf.RecordBadPeer()
